@@ -185,6 +185,57 @@ fn mutate(ctx: &mut Ctx, m: &[u8], other: &[u8]) -> (Vec<u8>, String) {
     }
 }
 
+/// Is the damage attributable to request `id`? True when the bytes are UTF-8 and - after an
+/// optional XML declaration, white space and comments - begin with a complete, well-formed
+/// <rpc-reply> start tag in the base namespace whose message-id is `id`. Whatever follows may be
+/// arbitrarily damaged: the message can still be handed to its owner, so nobody else needs to be
+/// disturbed and the owner need not wait.
+fn attributable_to(bytes: &[u8], id: &str) -> bool {
+    let Ok(text) = std::str::from_utf8(bytes) else { return false };
+    let mut rest = text.trim_start();
+    if rest.starts_with("<?xml") {
+        match rest.find("?>") {
+            Some(i) => rest = rest[i + 2..].trim_start(),
+            None => return false,
+        }
+    }
+    while rest.starts_with("<!--") {
+        match rest.find("-->") {
+            Some(i) => rest = rest[i + 3..].trim_start(),
+            None => return false,
+        }
+    }
+    if !rest.starts_with('<') {
+        return false;
+    }
+    // end of the start tag: the first '>' outside attribute quotes
+    let mut quote: Option<char> = None;
+    let mut end = None;
+    for (i, c) in rest.char_indices().skip(1) {
+        match (quote, c) {
+            (None, '"' | '\'') => quote = Some(c),
+            (Some(q), c) if c == q => quote = None,
+            (None, '>') => {
+                end = Some(i);
+                break;
+            }
+            (None, '<') => return false,
+            _ => {}
+        }
+    }
+    let Some(end) = end else { return false };
+    let tag = &rest[..end];
+    if tag.ends_with('/') {
+        return false;
+    }
+    let qname = tag[1..].split(|c: char| c.is_whitespace()).next().unwrap_or("");
+    let closed = format!("{tag}></{qname}>");
+    match crate::xml::parse(&closed) {
+        Ok(d) => d.root.local == "rpc-reply" && d.root.ns.as_deref() == Some(crate::doc::NS) && d.root.attr("message-id") == Some(id),
+        Err(_) => false,
+    }
+}
+
 fn which_leaf(ctx: &mut Ctx) -> bool {
     ctx.pick(3) != 0
 }
@@ -309,6 +360,8 @@ fn run(ctx: &mut Ctx) -> Verdict {
                 }
             }
             ctx.nontrivial = true;
+            // the clear-cut case of attributable damage: a reply cut short behind its intact start tag
+            let attributable = target == Target::Reply && what.starts_with("truncate@") && attributable_to(&mutated, &format!("{}", x + 1));
             let results: Arc<Mutex<BTreeMap<usize, String>>> = Arc::default();
             let est: Arc<Mutex<Option<String>>> = Arc::default();
             let (results2, est2) = (results.clone(), est.clone());
@@ -381,6 +434,30 @@ fn run(ctx: &mut Ctx) -> Verdict {
             if est.as_deref() != Some("established") {
                 return Verdict::Pass;
             }
+            // a reply that was cut short behind an intact <rpc-reply message-id="x"> start tag is
+            // attributable to its owner (the first parse phase reads only that tag): nobody else may be
+            // disturbed, and the owner must get an answer (value or error). Other damage behind an intact
+            // start tag (trailing bytes after the root, mismatched tags inside it) is judged leniently.
+            if target == Target::Reply && attributable {
+                ctx.count("probe.truncated_reply_attributable_to_its_owner");
+                for k in 0..n {
+                    if k == x {
+                        continue;
+                    }
+                    match results.get(&k) {
+                        Some(v) if v.starts_with("Ok(") && v.contains(&format!("TAG-{k}-OK")) => {}
+                        other => {
+                            return Verdict::violation(
+                                "truncated-reply-disturbs-another-request",
+                                format!("{what}: the truncated reply still names its owner #{x} in an intact start tag, but request #{k} resolved to {other:?}; results {results:?}"),
+                            )
+                        }
+                    }
+                }
+                if !results.contains_key(&x) {
+                    return Verdict::violation("truncated-reply-owner-never-answered", format!("{what}: the truncated reply still names its owner #{x} in an intact start tag, but that request never completed; results {results:?}"));
+                }
+            }
             // everybody but the owner of the destroyed reply (and at most one innocent reader) gets its own reply
             let mut collateral = Vec::new();
             for k in 0..n {
@@ -443,7 +520,7 @@ pub static C14: PropSpec = PropSpec {
     ],
     assumptions: &[
         "a mutation whose bytes name another outstanding request's message-id is skipped (its effect on that request would be legitimate)",
-        "not demanded: completion of the request whose reply was destroyed; at most one other caller (the one that happened to read an unattributable message) may see an error",
+        "when the damaged reply no longer names its owner (start tag or message-id destroyed, not UTF-8): completion of the owner is not demanded, and at most one other caller (the one that happened to read the unattributable message) may see an error. For a reply that is merely cut short behind an intact <rpc-reply message-id=x> start tag in the base namespace the strict form applies: every other request gets its own reply and the owner gets an answer",
         "a poll that never returns is detected by the worker watchdog (20 s of real time) and reported as class 'spin'",
     ],
     watchdog_s: 20,
